@@ -8,6 +8,9 @@ TRUST = ("TLC 1.8 + CommunityModules; the TLA+ modules under spec/ (reviewed aga
          "together by the MC_* theorems); harness/core.py (projection/concretisation, no oracle arithmetic); "
          "CPython/numpy; bounded spaces as stated in the evidence file")
 
+TRACE = ("TLC evaluates the property's clauses (TLA+ definitions in spec/) on every recorded library call "
+         "(trace validation, total verdict per call); inputs: TLC-exported exhaustive small grids + seeded random")
+
 CLAIMED = {
     "C01": dict(
         technique="TLA+ definition of the score evaluated by TLC on recorded library calls (trace validation, "
@@ -17,6 +20,65 @@ CLAIMED = {
              "probing and sampled grid schemes; TLC recomputes the score from the definition (spec/Kemeny.tla) "
              "and gives a total verdict per call; the refusal clause is decided the same way.",
         ref="6 C01"),
+    "C02": dict(
+        technique="TLA+ cost-table definition (Kemeny!Cost) vs recorded tables, entry-wise, by TLC; Mirror/ScoreTable "
+                  "theorems model-checked (MC_Kemeny)",
+        text="Every dataset of the small grid x presets and probing schemes: the table built from positions and from "
+             "bucket ids is compared entry-wise with the definition, the mirror identities are checked on the logged "
+             "table and its selected entries are summed against the library's own score of every bucket order.",
+        ref="6 C02"),
+    "C03": dict(technique=TRACE + "; spec/Trace_Algo.tla clause V03 (well-formed consensus over the universe)",
+                text="25 algorithm configurations (starters, auxiliaries, solver back-ends, stand-in CPLEX) x every dataset "
+                     "of the small grid x rotating schemes/namings/flags; TLC decides well-formedness, universe equality "
+                     "and type preservation (through the projection) of every returned ranking.",
+                ref="6 C03"),
+    "C04": dict(technique=TRACE + "; clause V04 (reported score = definitional score of every returned ranking)",
+                text="Same runs as C03 plus non-dyadic schemes: the score read from the consensus object (on demand and "
+                     "as supplied by the algorithm) is compared by TLC with the score of EVERY returned ranking.",
+                ref="6 C04"),
+    "C05": dict(technique=TRACE + "; optimum by brute force / subset DP in TLA+; ILP model theorems (MC_ILP) model-checked",
+                text="Compositional: (i) the ILP rows admit exactly the bucket-order encodings and the objective is the "
+                     "score (TLC, all assignments n<=4/5); (ii) every exact configuration, with CPLEX absent and with the "
+                     "CPLEX API present (stand-in), returns rankings whose score equals the optimum TLC computes over all "
+                     "bucket orders; the all-optima set is compared with OptSet.",
+                ref="6 C05"),
+    "C06": dict(technique=TRACE + "; ParCons design theorem model-checked on the grid (MC_Partition); clauses V06/VPart",
+                text="Design level: for every dataset of the grid and EVERY topological order of the components some "
+                     "optimal consensus respects it (TLC). Code level: the library's partition and ParCons runs under 7 "
+                     "parameterisations x 2 environments are validated against OptSet; the flag clause on all algorithms.",
+                ref="6 C06"),
+    "C07": dict(technique=TRACE + "; ParFront merge loop as a TLA+ step machine model-checked (MC_Partition); "
+                                  "consistency relation evaluated by TLC on all (partition, ranking) pairs",
+                text="Design level: the merge fixpoint of every topological order is respected by EVERY optimal consensus "
+                     "(TLC, all datasets of the grid). Code level: the library's ParFront partition is checked against "
+                     "OptSet and the ParCons partition; consistent_with is compared with the relation on all pairs over "
+                     "<=3 (thorough 4) elements.",
+                ref="6 C07"),
+    "C08": dict(technique=TRACE + "; LocalSearchDefs!LocalOpt (all single-element moves, exact scores)",
+                text="Every ranking returned by 7 BioConsert configurations on the grid and on random/threshold "
+                     "datasets is checked by TLC against every join/new-bucket move with the 0.001 threshold.",
+                ref="6 C08"),
+    "C09": dict(technique=TRACE + "; starting points computed by the specification or captured by wrapper algorithms",
+                text="TLC scores every starting point (unified inputs + all-tied, or the starters' recorded consensus) "
+                     "and every returned ranking: never worse, all returned rankings share one score.",
+                ref="6 C09"),
+    "C10": dict(technique=TRACE + "; clause V10 (subset of unified inputs, minimal, all minimal when requested, refusal)",
+                text="PickAPerm on every dataset of the grid x 10 schemes x both flags; TLC computes the unified inputs, "
+                     "their scores, the minimum and the refusal condition.",
+                ref="6 C10"),
+    "C12": dict(technique=TRACE + "; Positional!BordaOK (means compared by cross-multiplication)",
+                text="Both Borda variants on every dataset of the grid x 14 schemes (4 families, multiples, near-family) "
+                     "plus permuted/renamed random datasets; TLC requires the consensus order to be exactly the order of "
+                     "the means and decides refusals.",
+                ref="6 C12"),
+    "C13": dict(technique=TRACE + "; Positional!Copeland* from the definitional cost table",
+                text="Copeland on every dataset of the grid x presets and grid schemes: order, per-element scores, "
+                     "victory/equality/defeat counts and their sums are recomputed by TLC.",
+                ref="6 C13"),
+    "C14": dict(technique=TRACE + "; clause V14 (predicate total; relevant => accepted and well-formed; refusal iff not relevant)",
+                text="25 configurations incl. nested ones x 31+ schemes x complete/incomplete datasets, selector and "
+                     "ParCons in both solver environments.",
+                ref="6 C14"),
 }
 
 NOT_YET = "check not built yet in this session (planned in DESIGN.md section 6); not claimed until it runs"
